@@ -688,6 +688,34 @@ pub fn self_check() -> Result<(), String> {
 
 pub fn check_c06(v: &View, macro_sep_build: bool) -> Findings {
     let mut f = Findings::new();
+    // the hidden parentheses are the wrappers of %str/%nrstr calls: they pair up
+    let mut open_hidden = 0i64;
+    for (i, t) in v.toks.iter().enumerate() {
+        if t.ch == TokenChannel::HIDDEN {
+            match t.ty {
+                TokenType::LPAREN => open_hidden += 1,
+                TokenType::RPAREN => {
+                    open_hidden -= 1;
+                    if open_hidden < 0 {
+                        f.push(Finding::new(
+                            "C06.shape",
+                            "RPAREN|hidden-without-hidden-lparen|",
+                            format!("hidden RPAREN token {i} at {} closes no %str/%nrstr wrapper", t.b0),
+                        ));
+                        open_hidden = 0;
+                    }
+                }
+                _ => {}
+            }
+        }
+    }
+    if open_hidden > 0 {
+        f.push(Finding::new(
+            "C06.shape",
+            "LPAREN|hidden-never-closed|",
+            format!("{open_hidden} hidden LPAREN wrapper(s) of %str/%nrstr without their hidden RPAREN"),
+        ));
+    }
     for i in 0..v.toks.len() {
         if let Err(cls) = shape(v, i, macro_sep_build) {
             let t = v.toks[i];
